@@ -107,7 +107,7 @@ func c09Judge(cs *core.Case, in []byte) bool {
 		cs.Fail("reaccepted", det(core.W{"reencoded_hex": mon.Hex(b2, 400), "error": errStr(err2)}), kfs...)
 		return true
 	}
-	if !mon.SemEqual(ps, ps2) {
+	if !mon.SemEqual(normList(ps), normList(ps2)) {
 		cs.Fail("equal", det(core.W{"reencoded_hex": mon.Hex(b2, 400), "decoded_again": vdump(ps2)}), kfs...)
 		return true
 	}
